@@ -300,6 +300,57 @@ func scenarioStop2(rounds int) wRes {
 	return wRes{Scenario: "stop2", Ok: true}
 }
 
+// a second Stop called while the first is still waiting for an in-flight job: when EITHER returns, no
+// job may still be running ("Stop returns after in-flight jobs have finished")
+func scenarioStopWait() wRes {
+	ctx := context.Background()
+	p := New(Options{NumWorkers: 2})
+	p.Run(ctx)
+	started, release := make(chan struct{}), make(chan struct{})
+	var running atomic.Bool
+	p.Send(ctx, Event{Caller: "slow", Fn: func(context.Context) error {
+		running.Store(true)
+		close(started)
+		<-release // the job winds down slowly after the pool's context is cancelled
+		time.Sleep(2 * time.Millisecond)
+		running.Store(false)
+		return nil
+	}})
+	select {
+	case <-started:
+	case <-time.After(3 * time.Second):
+		return wRes{Scenario: "stopwait", Ok: false, What: "the job never started"}
+	}
+	stop1 := make(chan bool, 1)
+	go func() { p.Stop(); stop1 <- running.Load() }()
+	time.Sleep(5 * time.Millisecond) // Stop 1 is now waiting for the job
+	stop2 := make(chan bool, 1)
+	go func() { p.Stop(); stop2 <- running.Load() }()
+	early := false
+	select {
+	case r := <-stop2:
+		early = r
+		stop2 <- r
+	case <-time.After(40 * time.Millisecond):
+	}
+	close(release)
+	var r1, r2 bool
+	select {
+	case r1 = <-stop1:
+	case <-time.After(3 * time.Second):
+		return wRes{Scenario: "stopwait", Ok: false, What: "Stop did not return after the in-flight job had finished"}
+	}
+	select {
+	case r2 = <-stop2:
+	case <-time.After(3 * time.Second):
+		return wRes{Scenario: "stopwait", Ok: false, What: "the second Stop did not return"}
+	}
+	if early || r1 || r2 {
+		return wRes{Scenario: "stopwait", Ok: false, What: "a Stop called while another Stop was waiting returned while an in-flight job was still running"}
+	}
+	return wRes{Scenario: "stopwait", Ok: true}
+}
+
 func TestVerifC16(t *testing.T) {
 	out := os.Getenv("VERIF_OUT")
 	if out == "" {
@@ -345,6 +396,16 @@ func TestVerifC16(t *testing.T) {
 		}
 		for i := 0; i < reps; i++ {
 			flush(guarded("stress", func() wRes { return scenarioStress(seed+uint64(i), 2+i%5, 20+i%30, 1+i%3) }))
+			n++
+		}
+	}
+	if only == "" || only == "stopwait" {
+		reps := 3
+		if thorough {
+			reps = 30
+		}
+		for i := 0; i < reps; i++ {
+			flush(guarded("stopwait", scenarioStopWait))
 			n++
 		}
 	}
